@@ -923,7 +923,9 @@ func (m *c11Model) a5Results(locs *c11Locs) {
 			default:
 				for _, e2 := range st.ev {
 					if e2.kind == "loop" && e2.key == m.a5winKey {
-						if pre := e2.pre[U.obj]; pre == nil || pre.k != "nil" {
+						// empty: nil, or a scratch buffer reset to length zero (`buf[:0]`); its contents only leave by
+						// the value copy `append(results[I], buf...)`
+						if pre := e2.pre[U.obj]; pre == nil || !(pre.k == "nil" || (pre.k == "slice" && pre.xs[2].isConstInt(0) && (pre.xs[1].isConstInt(0) || pre.xs[1].name == "-"))) {
 							bad = append(bad, "the list accumulated by the window loop is not empty when the loop is entered (it is "+m.short(pre)+"): updates of one parent version would leak into the next")
 						}
 					}
